@@ -44,7 +44,7 @@ Definition inner_label (l : label) : bool :=
   match l with CRead | CReadClosed | ECancel => false | _ => true end.
 
 Section Caller.
-  Context (dec : N -> option N).
+  Context (dec : notif -> option (N * option N)).
 
   Definition with_l (s : cstate) (o : option lstate) (k : kpc) : option cstate :=
     match o with Some l' => Some (CS l' k (pctx s)) | None => None end.
@@ -103,7 +103,7 @@ End Caller.
     published on the shared topic (a Pub/Sub hands every notification to every subscriber; the
     per-subscriber order is its own business, so every family of sequences is allowed). *)
 Section Product.
-  Context (dec : N -> option N).
+  Context (dec : notif -> option (N * option N)).
 
   Definition nstep (cs : nat -> cfg) (ss : nat -> lstate) (il : nat * label) : option (nat -> lstate) :=
     match lstep dec (cs (fst il)) (ss (fst il)) (snd il) with
